@@ -1,5 +1,5 @@
 (* C04 - proofs about Core.v (any decoder) and their corollaries for Model.v's server. *)
-From Coq Require Import List ZArith NArith Bool Arith Lia.
+From Coq Require Import List ZArith NArith Bool Arith Lia DecimalNat.
 From Arc Require Import NoCrash.Core NoCrash.Model.
 Import ListNotations.
 
@@ -94,7 +94,6 @@ Qed.
 
 Record batch_ok (b : tbatch) : Prop := {
   bo_nodup : NoDup (map fst (tb_cols b));
-  bo_names : forall c, In c (tb_cols b) -> name_ok (fst c) = true;
   bo_len : forall c, In c (tb_cols b) -> len_of (snd c) = tb_n b;
   bo_time : exists l, alookup k_time (tb_cols b) = Some (DI l)
 }.
@@ -102,10 +101,9 @@ Record batch_ok (b : tbatch) : Prop := {
 Lemma batch_okb_sound b : batch_okb b = true -> batch_ok b.
 Proof.
   unfold batch_okb. intros H.
-  apply andb_true_iff in H as [H Ht]. apply andb_true_iff in H as [H Hl]. apply andb_true_iff in H as [Hd Hn].
+  apply andb_true_iff in H as [H Ht]. apply andb_true_iff in H as [Hd Hl].
   constructor.
   - now apply nodupb_sound.
-  - intros c Hc. rewrite forallb_forall in Hn. now apply Hn.
   - intros c Hc. rewrite forallb_forall in Hl. apply Nat.eqb_eq. now apply Hl.
   - destruct (alookup k_time (tb_cols b)) as [[l| | |]|]; try discriminate. now exists l.
 Qed.
@@ -242,36 +240,163 @@ Proof.
   - intros [d [Hin E]]. exists (n, d). cbn. split; [now subst|exact Hin].
 Qed.
 
-Lemma sig_entries_ok b : batch_ok b -> sig_entries (tb_cols b) = isort (col_types (tb_cols b)).
+Lemma all_plain_names cols c : all_plain cols = true -> In c cols -> name_ok (fst c) = true.
+Proof. unfold all_plain. rewrite forallb_forall. auto. Qed.
+
+Lemma sig_entries_plain cols : all_plain cols = true -> sig_entries cols = isort (col_types cols).
 Proof.
-  intros Hb. unfold sig_entries. f_equal. apply filter_all.
+  intros Hp. unfold sig_entries. f_equal. apply filter_all.
   intros [n t] Hin. cbn. apply (proj1 (col_types_in _ _ _)) in Hin as [d [Hin _]].
-  apply name_ok_counted. exact (bo_names b Hb (n, d) Hin).
+  apply name_ok_counted. exact (all_plain_names cols (n, d) Hp Hin).
 Qed.
 
-Lemma same_sig_entries b1 b2 :
-  batch_ok b1 -> batch_ok b2 -> sig_string b1 = sig_string b2 ->
-  isort (col_types (tb_cols b1)) = isort (col_types (tb_cols b2)).
+(* plain names: the signature string determines the sorted (name, type) list *)
+Lemma plain_key_entries c1 c2 :
+  all_plain c1 = true -> all_plain c2 = true ->
+  join (map entry (sig_entries c1)) = join (map entry (sig_entries c2)) ->
+  isort (col_types c1) = isort (col_types c2).
 Proof.
-  intros H1 H2 H. unfold sig_string in H. rewrite (sig_entries_ok b1 H1), (sig_entries_ok b2 H2) in H.
+  intros H1 H2 H. rewrite (sig_entries_plain c1 H1), (sig_entries_plain c2 H2) in H.
   apply map_entry_inj. apply join_inj; [| |exact H].
   - intros x Hx. apply in_map_iff in Hx as [[n t] [<- Hin]].
     split; [|apply entry_nonempty]. apply entry_no_comma. cbn.
     apply (proj1 (isort_in _ _)) in Hin. apply (proj1 (col_types_in _ _ _)) in Hin as [d [Hin _]].
-    apply name_ok_no_comma. exact (bo_names b1 H1 (n, d) Hin).
+    apply name_ok_no_comma. exact (all_plain_names c1 (n, d) H1 Hin).
   - intros x Hx. apply in_map_iff in Hx as [[n t] [<- Hin]].
     split; [|apply entry_nonempty]. apply entry_no_comma. cbn.
     apply (proj1 (isort_in _ _)) in Hin. apply (proj1 (col_types_in _ _ _)) in Hin as [d [Hin _]].
-    apply name_ok_no_comma. exact (bo_names b2 H2 (n, d) Hin).
+    apply name_ok_no_comma. exact (all_plain_names c2 (n, d) H2 Hin).
 Qed.
 
-(* two guarded batches with the same signature give every shared column name one Go type *)
+(* the length-prefixed encoding: decimal lengths *)
+Lemma uint_bytes_inj : forall u v, uint_bytes u = uint_bytes v -> u = v.
+Proof.
+  induction u; destruct v; cbn; intros H; try reflexivity; try discriminate;
+    inversion H; f_equal; auto.
+Qed.
+
+Lemma uint_bytes_no_colon u : ~ In c_colon (uint_bytes u).
+Proof.
+  induction u; cbn; unfold c_colon in *; intros H; try tauto;
+    (destruct H as [H|H]; [discriminate|auto]).
+Qed.
+
+Lemma dec_nat_inj a b : dec_nat a = dec_nat b -> a = b.
+Proof.
+  unfold dec_nat. intros H. apply uint_bytes_inj in H.
+  rewrite <- (Unsigned.of_to a), <- (Unsigned.of_to b). now rewrite H.
+Qed.
+
+Lemma app_len_inj {A} : forall (a b x y : list A), length a = length b -> a ++ x = b ++ y -> a = b /\ x = y.
+Proof.
+  induction a as [|h a IH]; intros [|k b] x y Hl H; cbn in *; try discriminate; [auto|].
+  inversion H; subst. destruct (IH b x y) as [-> ->]; auto.
+Qed.
+
+Lemma tystr_no_semi t : ~ In c_semi (tystr t).
+Proof. destruct t; cbn; unfold c_semi; intros H; repeat (destruct H as [H|H]; [discriminate|]); exact H. Qed.
+
+Lemma full_entry_prefix_inj e1 e2 r1 r2 :
+  full_entry e1 ++ r1 = full_entry e2 ++ r2 -> e1 = e2 /\ r1 = r2.
+Proof.
+  destruct e1 as [n1 t1], e2 as [n2 t2]. unfold full_entry; cbn [fst snd]. intros H.
+  rewrite <- !app_assoc in H. cbn [app] in H.
+  apply app_sep_inj in H as [Hd H]; [| apply uint_bytes_no_colon | apply uint_bytes_no_colon].
+  apply dec_nat_inj in Hd.
+  rewrite <- !app_assoc in H. cbn [app] in H.
+  apply app_len_inj in H as [-> H]; [|exact Hd].
+  inversion H as [H']. rewrite <- !app_assoc in H'. cbn [app] in H'.
+  apply app_sep_inj in H' as [Ht Hr]; [| apply tystr_no_semi | apply tystr_no_semi].
+  apply tystr_inj in Ht. subst. auto.
+Qed.
+
+Lemma full_entry_nonempty e r : full_entry e ++ r <> [].
+Proof.
+  unfold full_entry. intros H. apply (f_equal (@length N)) in H.
+  rewrite !app_length in H. cbn in H. rewrite app_length in H. cbn in H. lia.
+Qed.
+
+Lemma full_concat_inj : forall l1 l2,
+  concat (map full_entry l1) = concat (map full_entry l2) -> l1 = l2.
+Proof.
+  induction l1 as [|a l1 IH]; intros [|b l2] H; cbn in H.
+  - reflexivity.
+  - symmetry in H. now apply full_entry_nonempty in H.
+  - now apply full_entry_nonempty in H.
+  - apply full_entry_prefix_inj in H as [-> H]. f_equal. now apply IH.
+Qed.
+
+(* a plain signature ends in a type name, the full encoding in ';' *)
+Lemma join_entry_last : forall l, l <> [] -> exists p t, join (map entry l) = p ++ tystr t.
+Proof.
+  induction l as [|e l IH]; intros Hne; [congruence|].
+  destruct l as [|e' l].
+  - cbn. exists (fst e ++ [c_colon]), (snd e). unfold entry. now rewrite <- app_assoc.
+  - destruct IH as [p [t Hp]]; [discriminate|].
+    change (map entry (e :: e' :: l)) with (entry e :: map entry (e' :: l)).
+    cbn [map] in *. rewrite join_cons2. rewrite Hp.
+    exists (entry e ++ c_comma :: p), t. now rewrite <- app_assoc.
+Qed.
+
+Lemma tystr_last t : exists q c, tystr t = q ++ [c] /\ c <> c_semi.
+Proof.
+  destruct t; cbn.
+  - exists [105; 54]%N, 52%N. split; [reflexivity|discriminate].
+  - exists [102; 54]%N, 52%N. split; [reflexivity|discriminate].
+  - exists [115; 116]%N, 114%N. split; [reflexivity|discriminate].
+  - exists [98; 111; 111]%N, 108%N. split; [reflexivity|discriminate].
+Qed.
+
+Lemma full_concat_last : forall l, l <> [] -> exists p, concat (map full_entry l) = p ++ [c_semi].
+Proof.
+  induction l as [|e l IH]; intros Hne; [congruence|].
+  destruct l as [|e' l].
+  - cbn. rewrite app_nil_r. unfold full_entry.
+    exists (dec_nat (length (fst e)) ++ c_colon :: fst e ++ c_colon :: tystr (snd e)).
+    rewrite <- !app_assoc. cbn. now rewrite <- app_assoc.
+  - destruct IH as [p Hp]; [discriminate|].
+    change (concat (map full_entry (e :: e' :: l))) with (full_entry e ++ concat (map full_entry (e' :: l))).
+    rewrite Hp. exists (full_entry e ++ p). now rewrite app_assoc.
+Qed.
+
+Lemma plain_ne_full c1 c2 :
+  all_plain c2 = false -> join (map entry (sig_entries c1)) <> full_key c2.
+Proof.
+  intros Hp H. unfold full_key in H.
+  assert (Hne : isort (col_types c2) <> []).
+  { destruct c2 as [|x c2]; [discriminate|]. intros E.
+    assert (Hin : In (fst x, ty_of (snd x)) (isort (col_types (x :: c2)))).
+    { apply (proj2 (isort_in _ _)). cbn. now left. }
+    rewrite E in Hin. destruct Hin. }
+  destruct (full_concat_last _ Hne) as [p Hp'].
+  destruct (sig_entries c1) as [|e l] eqn:E.
+  - cbn in H. discriminate.
+  - destruct (join_entry_last (e :: l)) as [p1 [t Hj]]; [discriminate|].
+    destruct (tystr_last t) as [q [c [Hq Hc]]].
+    rewrite Hj, Hq, Hp' in H. rewrite app_assoc in H.
+    change (0%N :: p ++ [c_semi]) with ((0%N :: p) ++ [c_semi]) in H.
+    apply app_inj_tail in H as [_ H]. congruence.
+Qed.
+
+(* the routing key determines the sorted (name, type) list of ALL columns *)
+Lemma same_key_entries b1 b2 :
+  buffer_key b1 = buffer_key b2 -> isort (col_types (tb_cols b1)) = isort (col_types (tb_cols b2)).
+Proof.
+  unfold buffer_key, sig_string. intros H.
+  destruct (all_plain (tb_cols b1)) eqn:P1, (all_plain (tb_cols b2)) eqn:P2.
+  - now apply plain_key_entries.
+  - exfalso. now apply (plain_ne_full (tb_cols b1) (tb_cols b2) P2).
+  - exfalso. symmetry in H. now apply (plain_ne_full (tb_cols b2) (tb_cols b1) P1).
+  - unfold full_key in H. inversion H as [H']. now apply full_concat_inj.
+Qed.
+
+(* two batches (Go maps) with the same routing key give every shared column name one Go type *)
 Lemma same_sig_types b1 b2 n d1 d2 :
-  batch_ok b1 -> batch_ok b2 -> sig_string b1 = sig_string b2 ->
+  batch_ok b1 -> batch_ok b2 -> buffer_key b1 = buffer_key b2 ->
   In (n, d1) (tb_cols b1) -> In (n, d2) (tb_cols b2) -> ty_of d1 = ty_of d2.
 Proof.
   intros H1 H2 Hs I1 I2.
-  pose proof (same_sig_entries b1 b2 H1 H2 Hs) as E.
+  pose proof (same_key_entries b1 b2 Hs) as E.
   assert (Hin : In (n, ty_of d1) (isort (col_types (tb_cols b2)))).
   { rewrite <- E. apply (proj2 (isort_in _ _)). apply (proj2 (col_types_in _ _ _)). now exists d1. }
   apply (proj1 (isort_in _ _)) in Hin. apply (proj1 (col_types_in _ _ _)) in Hin as [d2' [I2' Et]].
@@ -329,7 +454,7 @@ Proof.
 Qed.
 
 Definition same_sig (sg : bytes) (bs : list tbatch) : Prop :=
-  Forall batch_ok bs /\ forall b, In b bs -> sig_string b = sg.
+  Forall batch_ok bs /\ forall b, In b bs -> buffer_key b = sg.
 
 Lemma types_agree_ok sg bs :
   same_sig sg bs -> forallb (types_agree (first_types bs [])) bs = true.
@@ -358,33 +483,24 @@ Qed.
 Lemma blank_len t n : len_of (blank t n) = n.
 Proof. destruct t; cbn; [apply repeat_length|reflexivity..]. Qed.
 
-Lemma has_empty_name_false cols :
-  (forall c, In c cols -> counted (fst c) = true) -> has_empty_name cols = false.
-Proof.
-  intros H. unfold has_empty_name. apply existsb_false. intros c Hc.
-  pose proof (H c Hc) as H'. destruct c as [n d]. cbn in *. destruct n; [discriminate H'|reflexivity].
-Qed.
-
-(* a rectangular batch with an int64 time column and no empty name is written whole *)
+(* a rectangular batch with an int64 time column is written whole *)
 Lemma flush_part_rect b times :
   alookup k_time (tb_cols b) = Some (DI times) ->
   (forall c, In c (tb_cols b) -> len_of (snd c) = length times) ->
-  has_empty_name (tb_cols b) = false ->
   flush_partitioned b = match times with [] => FErr | _ => FOk (length times) end.
 Proof.
-  intros Ht Hlen Hne. unfold flush_partitioned. rewrite Ht.
+  intros Ht Hlen. unfold flush_partitioned. rewrite Ht.
   destruct times as [|t0 ts]; [reflexivity|].
   set (times := t0 :: ts) in *.
   assert (Hw : write_parquet (tb_cols b) (length times) = FOk (length times)).
-  { unfold write_parquet. rewrite Hne.
+  { unfold write_parquet.
     replace (forallb _ (schema_cols (tb_cols b))) with true; [reflexivity|].
     symmetry. apply forallb_forall. intros c Hc. apply Nat.eqb_eq. apply Hlen.
     unfold schema_cols in Hc. apply filter_In in Hc. tauto. }
   assert (Hx : existsb (fun c => Nat.ltb (len_of (snd c)) (length times)) (tb_cols b) = false).
   { apply existsb_false. intros c Hc. rewrite (Hlen c Hc). apply Nat.ltb_irrefl. }
-  destruct (hour_of (zmin t0 times) =? hour_of (zmax t0 times))%Z.
-  - destruct (sortedb times); [exact Hw|]. rewrite Hx, Hne. reflexivity.
-  - rewrite Hne. reflexivity.
+  destruct (hour_of (zmin t0 times) =? hour_of (zmax t0 times))%Z; [|reflexivity].
+  destruct (sortedb times); [exact Hw|]. rewrite Hx. reflexivity.
 Qed.
 
 Lemma flush_single b :
@@ -396,7 +512,6 @@ Proof.
   rewrite (flush_part_rect b l Hl).
   - destruct l; cbn in *; [right; split; [reflexivity|now symmetry]|left; now rewrite <- Hn].
   - intros c Hc. rewrite Hn. exact (bo_len b Hb c Hc).
-  - apply has_empty_name_false. intros c Hc. apply name_ok_counted. exact (bo_names b Hb c Hc).
 Qed.
 
 Lemma flush_many sg b1 b2 r :
@@ -435,10 +550,6 @@ Proof.
   - rewrite <- Hlen. destruct times; cbn; [right; split; reflexivity|left; reflexivity].
   - intros c Hc. cbn [tb_cols mb] in Hc. apply in_map_iff in Hc as [[n t] [<- _]]. unfold f. cbn [fst snd].
     destruct (beqb n k_time && colty_eqb t TyI64); [reflexivity|apply blank_len].
-  - apply has_empty_name_false. intros c Hc. cbn [tb_cols mb] in Hc.
-    apply in_map_iff in Hc as [[n t] [<- Hin]]. unfold f. cbn [fst].
-    apply first_types_sound in Hin as [[]|[b' [d' [Hb' [Hd' _]]]]].
-    rewrite Forall_forall in Hok. apply name_ok_counted. exact (bo_names b' (Hok b' Hb') (n, d') Hd').
 Qed.
 
 Lemma flush_ok sg bs :
@@ -585,13 +696,13 @@ Definition write_post (st : state) (bg : list task) (n : nat) (st' : state) (bg'
 
 Lemma append_ok c st k b bg :
   Inv st -> batch_ok b -> Forall task_ok bg ->
-  (forall bf, get_buf k (st_bufs st) = Some bf -> bf_sig bf = sig_string b) ->
+  (forall bf, get_buf k (st_bufs st) = Some bf -> bf_sig bf = buffer_key b) ->
   exists st' bg', append_batch c st k b bg = WOk st' bg' /\ write_post st bg (tb_n b) st' bg'.
 Proof.
   intros [Hnd Hbufs] Hb Hbg Hsig. unfold append_batch.
   set (bf' := match get_buf k (st_bufs st) with
               | Some bf => {| bf_sig := bf_sig bf; bf_batches := bf_batches bf ++ [b] |}
-              | None => {| bf_sig := sig_string b; bf_batches := [b] |}
+              | None => {| bf_sig := buffer_key b; bf_batches := [b] |}
               end).
   assert (Hok' : buf_ok bf').
   { unfold bf'. destruct (get_buf k (st_bufs st)) as [bf|] eqn:G.
@@ -627,14 +738,14 @@ Lemma write_rec_ok c st k b bg :
 Proof.
   intros HI Hb Hbg. unfold write_rec.
   destruct (get_buf k (st_bufs st)) as [bf|] eqn:G.
-  - destruct (beqb_spec (bf_sig bf) (sig_string b)) as [E|Hne].
+  - destruct (beqb_spec (bf_sig bf) (buffer_key b)) as [E|Hne].
     + apply append_ok; auto. intros bf0 G0. rewrite G in G0. now inversion G0; subst.
     + destruct HI as [Hnd Hbufs].
       pose proof (get_buf_in _ _ _ G) as Hin. pose proof Hbufs as Hbufs'. rewrite Forall_forall in Hbufs'.
       destruct (Hbufs' _ Hin) as [Hnonempty Hs]. cbn in Hnonempty, Hs.
       set (st1 := {| st_bufs := del_buf k (st_bufs st); st_stored := st_stored st |}).
       assert (HI1 : Inv st1) by (split; cbn; [now apply del_buf_nodup|now apply forall_del]).
-      assert (Hg1 : forall x, get_buf k (st_bufs st1) = Some x -> bf_sig x = sig_string b).
+      assert (Hg1 : forall x, get_buf k (st_bufs st1) = Some x -> bf_sig x = buffer_key b).
       { intros x Hx. cbn in Hx. rewrite get_del_none in Hx. discriminate. }
       assert (Hheld : held_rows st = held_rows st1 + batch_rows (bf_batches bf)).
       { unfold st1. rewrite held_mk, (held_eq st), (brows_del k _ bf Hnd G). lia. }
@@ -663,9 +774,9 @@ Proof.
     + exists st, S5xx, bg. split; [reflexivity|]. split; [exact HI|split; [exact Hbg|lia]].
 Qed.
 
-Lemma run_tasks_ok : forall ts st rs may failed,
+Lemma run_tasks_ok c : forall ts st rs may failed,
   Forall task_ok ts ->
-  exists st' failed', run_tasks ts st rs may failed = (st', rs, may, failed') /\
+  exists st' failed', run_tasks c ts st rs may failed = (st', rs, may, failed') /\
                       st_bufs st' = st_bufs st /\ stored_rows st' = stored_rows st + tasks_rows ts.
 Proof.
   induction ts as [|[k bs] r IH]; intros st rs may failed H; cbn.
@@ -712,7 +823,7 @@ Proof.
       - apply write_loop_ok; auto.
       - destruct He. }
     destruct Hh as [st1 [s [bg [E [[Hnd Hb] [Hbg Hrows]]]]]].
-    destruct (run_tasks_ok bg st1 [] false false Hbg) as [st2 [f' [E2 [B2 S2]]]].
+    destruct (run_tasks_ok c bg st1 [] false false Hbg) as [st2 [f' [E2 [B2 S2]]]].
     exists st2, (OStatus s). cbn [step]. rewrite E, E2. cbn [ending_of]. split; [reflexivity|]. split.
     + unfold Inv. rewrite B2. split; assumption.
     + cbn [event_rows]. rewrite !held_eq in *. rewrite B2, S2. change (tasks_rows []) with 0 in Hrows. lia.
@@ -724,7 +835,7 @@ Proof.
       now exists (bf_sig (snd kb)). }
     assert (Hrows : tasks_rows ts = brows (st_bufs st)).
     { apply tasks_rows_of_bufs. }
-    destruct (run_tasks_ok ts {| st_bufs := []; st_stored := st_stored st |} [] false false Hts)
+    destruct (run_tasks_ok c ts {| st_bufs := []; st_stored := st_stored st |} [] false false Hts)
       as [st2 [f' [E2 [B2 S2]]]].
     exists st2, (OFlush f'). cbn [step]. fold ts. rewrite E2. cbn [ending_of]. split; [reflexivity|]. split.
     + unfold Inv. rewrite B2. cbn. split; constructor.
@@ -765,7 +876,7 @@ Proof.
   { apply Forall_forall. intros t Ht. apply in_map_iff in Ht as [kb [<- Hin]].
     rewrite Forall_forall in Hb. destruct (Hb kb Hin) as [Hne Hs]. split; [exact Hne|].
     now exists (bf_sig (snd kb)). }
-  destruct (run_tasks_ok ts {| st_bufs := []; st_stored := st_stored st |} [] false false Hts)
+  destruct (run_tasks_ok c ts {| st_bufs := []; st_stored := st_stored st |} [] false false Hts)
     as [st2 [f' [E2 [B2 S2]]]].
   exists st2, f'. cbn [step]. fold ts. rewrite E2. cbn [ending_of]. split; [reflexivity|]. split; [exact B2|].
   rewrite S2, held_eq. unfold ts. rewrite tasks_rows_of_bufs. reflexivity.
@@ -789,9 +900,43 @@ Proof.
 Qed.
 
 (* ------------------------------------------------------------------------------------ *)
+(* with the recover in place no run can end in [Died]: no guard, any decoder                 *)
+
+Lemma run_tasks_recover c : recover_flush c = true -> forall ts st rs may failed,
+  exists st' failed', run_tasks c ts st rs may failed = (st', rs, may, failed').
+Proof.
+  intros Hr. induction ts as [|[k bs] r IH]; intros st rs may failed; cbn.
+  - now exists st, failed.
+  - rewrite Hr. destruct (flush_batches bs); apply IH.
+Qed.
+
+Lemma step_no_died c st e : recover_flush c = true ->
+  forall rs, snd (step c st e) <> Died rs.
+Proof.
+  intros Hr rs. destruct e as [d|]; cbn [step].
+  - destruct (handle c st d) as [st' s bg|st']; [|cbn; discriminate].
+    destruct (run_tasks_recover c Hr bg st' [] false false) as [st2 [f E]]. rewrite E. cbn. discriminate.
+  - destruct (run_tasks_recover c Hr (map (fun kb : key * buf => (fst kb, bf_batches (snd kb))) (st_bufs st))
+                {| st_bufs := []; st_stored := st_stored st |} [] false false) as [st2 [f E]].
+    rewrite E. cbn. discriminate.
+Qed.
+
+Lemma run_no_died c : recover_flush c = true -> forall evs st rs, r_end (run c evs st) <> Died rs.
+Proof.
+  intros Hr. induction evs as [|e r IH]; intros st rs; cbn; [discriminate|].
+  pose proof (step_no_died c st e Hr) as Hs.
+  destruct (step c st e) as [[st' o] en]. cbn in Hs.
+  destruct o as [o|]; [destruct en|]; cbn; try apply IH; try apply Hs; try discriminate.
+Qed.
+
+(* ------------------------------------------------------------------------------------ *)
 (* main statements about Core.v: ANY decoder, ANY sequence of decoded requests            *)
 
-Theorem core_no_panic_guarded c evs st :
+Theorem core_no_panic c evs st rs :
+  recover_flush c = true -> r_end (run c evs st) <> Died rs.
+Proof. intros Hr. now apply run_no_died. Qed.
+
+Theorem core_no_flush_failure_guarded c evs st :
   Inv st -> forallb event_okb evs = true ->
   r_end (run c evs st) = Completed /\ length (r_obs (run c evs st)) = length evs.
 Proof.
@@ -829,12 +974,15 @@ Proof.
   unfold sevent_ok in H1. rewrite H1. now apply IH.
 Qed.
 
-Theorem server_no_panic_guarded s evs :
+Theorem server_no_panic s evs rs : r_end (run_server s evs) <> Died rs.
+Proof. unfold run_server. apply core_no_panic. reflexivity. Qed.
+
+Theorem server_no_flush_failure_guarded s evs :
   forallb (sevent_ok s) evs = true ->
   r_end (run_server s evs) = Completed /\ length (r_obs (run_server s evs)) = length evs.
 Proof.
   intros H. unfold run_server.
-  destruct (core_no_panic_guarded {| max_rows := sc_max s |} (map (front_ev s) evs) init Inv_init (guard_events s evs H))
+  destruct (core_no_flush_failure_guarded (server_cfg s) (map (front_ev s) evs) init Inv_init (guard_events s evs H))
     as [A B]. split; [exact A|]. now rewrite B, map_length.
 Qed.
 
@@ -845,7 +993,7 @@ Theorem server_rows_conserved_guarded s evs :
    stored_rows (r_state (run_server s (evs ++ [SFlush]))) = events_rows (map (front_ev s) evs)).
 Proof.
   intros H. unfold run_server. rewrite map_app. cbn [map front_ev].
-  destruct (core_rows_conserved_guarded {| max_rows := sc_max s |} (map (front_ev s) evs) init Inv_init (guard_events s evs H))
+  destruct (core_rows_conserved_guarded (server_cfg s) (map (front_ev s) evs) init Inv_init (guard_events s evs H))
     as [A [B C]].
   change (held_rows init) with 0 in *. cbn in A, C. auto.
 Qed.
@@ -855,12 +1003,14 @@ Theorem server_front_rejected_stores_nothing s r c st x :
 Proof. intros ->. reflexivity. Qed.
 
 (* ------------------------------------------------------------------------------------ *)
-(* witnesses: the unguarded claims fail on the faithful model                             *)
+(* witnesses                                                                              *)
 
 Definition T0 : Z := 1700000000000000.
 Definition str_m : bytes := [109]%N.
 Definition str_cpu : bytes := [99; 112; 117]%N.
 Definition str_columns : bytes := [99; 111; 108; 117; 109; 110; 115]%N.
+Definition str_fields : bytes := [102; 105; 101; 108; 100; 115]%N.
+Definition str_tags : bytes := [116; 97; 103; 115]%N.
 
 Definition w_time : MP.ast * MP.ast :=
   (MP.MStr k_time, MP.MArr [MP.MInt MP.KI64 T0; MP.MInt MP.KI64 (T0 + 1)]).
@@ -876,28 +1026,24 @@ Definition w_floats : MP.ast := MP.MArr [MP.MF64 4607182418800017408%N; MP.MF64 
 
 Definition prod_cfg : scfg := {| sc_max := 1000000; sc_typed := true; sc_now := 0 |}.
 
-(* (i) a column named "" : accepted (204), the process dies in the background flush *)
+(* the four request sequences that killed the process before commits 6c35f6a / 5cfca39 / 763beab
+   (regression witnesses; replayed on the real server by every run of the check) *)
 Definition w_empty_name : list sevent :=
   [SReq (RqMsgpack None (w_columnar str_cpu [([], w_ints)])); SFlush].
 
-(* (ii) column _x sent as int then as string: one buffer, mergeBatches' type assertion *)
 Definition w_underscore : list sevent :=
   [SReq (RqMsgpack None (w_columnar str_cpu [([95; 120]%N, w_ints)]));
    SReq (RqMsgpack None (w_columnar str_cpu [([95; 120]%N, w_strs)])); SFlush].
 
-(* (iii) ordinary names containing ',' and ':' : {Z:f64, a:i64, "q:str,a":str} and
-   {"Z:f64,a:i64,q":str, a:str} have the SAME signature string "Z:f64,a:i64,q:str,a:str" *)
 Definition w_collision : list sevent :=
   [SReq (RqMsgpack None (w_columnar str_cpu
       [([90]%N, w_floats); ([97]%N, w_ints); ([113; 58; 115; 116; 114; 44; 97]%N, w_strs)]));
    SReq (RqMsgpack None (w_columnar str_cpu
       [([90; 58; 102; 54; 52; 44; 97; 58; 105; 54; 52; 44; 113]%N, w_strs); ([97]%N, w_strs)])); SFlush].
 
-(* (iv) row format {m: cpu, t: T0, fields: {time: T0-1, v: 1}} : rowsToColumnar appends the
-   field to the time column (2 entries for 1 row); the sort permutes 2 indices over 1-row columns *)
 Definition w_row_time : list sevent :=
   [SReq (RqMsgpack None (MP.MMap [(MP.MStr str_m, MP.MStr str_cpu); (MP.MStr [116]%N, MP.MInt MP.KI64 T0);
-      (MP.MStr [102; 105; 101; 108; 100; 115]%N,
+      (MP.MStr str_fields,
        MP.MMap [(MP.MStr k_time, MP.MInt MP.KI64 (T0 - 1)); (MP.MStr [118]%N, MP.MInt MP.KFix 1)])])); SFlush].
 
 (* a batch whose second record fails in the write loop: 500, yet the first record is stored *)
@@ -906,42 +1052,46 @@ Definition w_partial : list sevent :=
       MP.MArr [w_columnar [97; 97]%N [([118]%N, w_ints)];
                w_columnar [98; 98]%N [([118]%N, MP.MArr [MP.MInt MP.KFix 1; MP.MStr [115]%N])]])])); SFlush].
 
-(* an accepted request whose rows are lost: the schema-change flush panics in the handler *)
-Definition w_lost : list sevent :=
-  [SReq (RqMsgpack None (w_columnar str_cpu [([], w_ints)]));
-   SReq (RqMsgpack None (w_columnar str_cpu [([119]%N, w_ints)])); SFlush].
+(* STILL possible on the fixed code: row format {m: cpu, t: T0, h: "", fields: {a: "x"},
+   tags: {a: "t", a_value: "u"}}.  rowsToColumnar renames the field a (it collides with the tag a) to
+   a_value, which collides with the tag a_value: that column gets 2 entries for 1 row.  The write
+   is accepted (204); the flush fails (array.NewRecord panics - recovered - or the Parquet writer
+   refuses the unequal columns) and the accepted row is dropped, not retried. *)
+Definition w_suffix_collision : list sevent :=
+  [SReq (RqMsgpack None (MP.MMap [(MP.MStr str_m, MP.MStr str_cpu); (MP.MStr [116]%N, MP.MInt MP.KI64 T0);
+      (MP.MStr [104]%N, MP.MStr []);
+      (MP.MStr str_fields, MP.MMap [(MP.MStr [97]%N, MP.MStr [120]%N)]);
+      (MP.MStr str_tags, MP.MMap [(MP.MStr [97]%N, MP.MStr [116]%N);
+                                  (MP.MStr [97; 95; 118; 97; 108; 117; 101]%N, MP.MStr [117]%N)])])); SFlush].
 
 (* {nil: 1}: the msgpack fork panics inside Decode; the recover middleware answers 500 *)
 Definition w_nil_key : list sevent :=
   [SReq (RqMsgpack None (MP.MMap [(MP.MNil, MP.MInt MP.KFix 1)]));
    SReq (RqMsgpack None (w_columnar str_cpu [([118]%N, w_ints)])); SFlush].
 
-(* inside the guard: a type change of an ordinary column, then line protocol on the same measurement *)
+(* inside the guard: a type change of an ordinary column, an '_'-prefixed column that changes type,
+   then line protocol on the same measurement *)
 Definition w_guarded : list sevent :=
   [SReq (RqMsgpack None (w_columnar str_cpu [([118]%N, w_ints)]));
    SReq (RqMsgpack None (w_columnar str_cpu [([118]%N, w_strs)]));
+   SReq (RqMsgpack None (w_columnar str_cpu [([95; 120]%N, w_ints)]));
+   SReq (RqMsgpack None (w_columnar str_cpu [([95; 120]%N, w_strs)]));
    SReq (RqLP None [117; 115]%N
            [99;112;117;32;118;61;49;105;32;49;55;48;48;48;48;48;48;48;48;48;48;48;48;48;50;10]%N)].
 
-Lemma refuted_empty_name :
-  r_obs (run_server prod_cfg w_empty_name) = [OStatus S2xx] /\
-  r_end (run_server prod_cfg w_empty_name) = Died [PIndexEmptyName].
-Proof. vm_compute. split; reflexivity. Qed.
+Definition str_default_cpu : bytes := [100;101;102;97;117;108;116;47;99;112;117]%N.
 
-Lemma refuted_underscore :
-  r_obs (run_server prod_cfg w_underscore) = [OStatus S2xx; OStatus S2xx] /\
-  r_end (run_server prod_cfg w_underscore) = Died [PTypeAssert].
-Proof. vm_compute. split; reflexivity. Qed.
-
-Lemma refuted_collision :
-  r_obs (run_server prod_cfg w_collision) = [OStatus S2xx; OStatus S2xx] /\
-  r_end (run_server prod_cfg w_collision) = Died [PTypeAssert].
-Proof. vm_compute. split; reflexivity. Qed.
-
-Lemma refuted_row_time :
-  r_obs (run_server prod_cfg w_row_time) = [OStatus S2xx] /\
-  r_end (run_server prod_cfg w_row_time) = Died [PIndexRange].
-Proof. vm_compute. split; reflexivity. Qed.
+(* the old crash witnesses on the code as it is: refused (400) or stored completely *)
+Lemma old_witnesses_fixed :
+  (r_obs (run_server prod_cfg w_empty_name) = [OStatus S4xx; OFlush false] /\
+   stored_rows (r_state (run_server prod_cfg w_empty_name)) = 0) /\
+  (r_obs (run_server prod_cfg w_underscore) = [OStatus S2xx; OStatus S2xx; OFlush false] /\
+   stored_table (r_state (run_server prod_cfg w_underscore)) = [(str_default_cpu, 4%N)]) /\
+  (r_obs (run_server prod_cfg w_collision) = [OStatus S2xx; OStatus S2xx; OFlush false] /\
+   stored_table (r_state (run_server prod_cfg w_collision)) = [(str_default_cpu, 4%N)]) /\
+  (r_obs (run_server prod_cfg w_row_time) = [OStatus S4xx; OFlush false] /\
+   stored_rows (r_state (run_server prod_cfg w_row_time)) = 0).
+Proof. vm_compute. repeat split; reflexivity. Qed.
 
 Lemma refuted_partial :
   r_obs (run_server prod_cfg w_partial) = [OStatus S5xx; OFlush false] /\
@@ -950,9 +1100,9 @@ Lemma refuted_partial :
 Proof. vm_compute. repeat split; reflexivity. Qed.
 
 Lemma refuted_lost :
-  r_obs (run_server prod_cfg w_lost) = [OStatus S2xx; OStatus S5xx; OFlush false] /\
-  r_end (run_server prod_cfg w_lost) = Completed /\
-  stored_rows (r_state (run_server prod_cfg w_lost)) = 0.
+  r_obs (run_server prod_cfg w_suffix_collision) = [OStatus S2xx; OFlush true] /\
+  r_end (run_server prod_cfg w_suffix_collision) = Completed /\
+  held_rows (r_state (run_server prod_cfg w_suffix_collision)) = 0.
 Proof. vm_compute. repeat split; reflexivity. Qed.
 
 Lemma nil_key_recovered :
@@ -964,12 +1114,29 @@ Proof. vm_compute. repeat split; reflexivity. Qed.
 
 Lemma guarded_example :
   forallb (sevent_ok prod_cfg) w_guarded = true /\
-  r_obs (run_server prod_cfg (w_guarded ++ [SFlush])) = [OStatus S2xx; OStatus S2xx; OStatus S2xx; OFlush false] /\
-  stored_table (r_state (run_server prod_cfg (w_guarded ++ [SFlush]))) = [([100;101;102;97;117;108;116;47;99;112;117]%N, 5%N)].
+  r_obs (run_server prod_cfg (w_guarded ++ [SFlush])) =
+    [OStatus S2xx; OStatus S2xx; OStatus S2xx; OStatus S2xx; OStatus S2xx; OFlush false] /\
+  stored_table (r_state (run_server prod_cfg (w_guarded ++ [SFlush]))) = [(str_default_cpu, 9%N)].
 Proof. vm_compute. repeat split; reflexivity. Qed.
 
-(* each witness leaves the guard through exactly one clause (bit mask of Model.batch_class) *)
+(* what the recover does, on the core model with a decoder output the fronts no longer produce:
+   one row whose time column has two (unsorted) entries.  Recovered: the flush fails and the row
+   is gone, the run completes; not recovered (the code before 763beab): the process dies. *)
+Definition w_ragged : list event :=
+  [EReq (DWrite str_cpu [RBatch str_cpu {| tb_n := 1; tb_cols := [(k_time, DI [5; 3]%Z); ([118]%N, DI [1]%Z)] |}]); EFlush].
+
+Lemma recover_loses_rows :
+  let res := run {| max_rows := 1000000; recover_flush := true |} w_ragged init in
+  r_obs res = [OStatus S2xx; OFlush true] /\ r_end res = Completed /\ held_rows (r_state res) = 0.
+Proof. vm_compute. repeat split; reflexivity. Qed.
+
+Lemma without_recover_dies :
+  r_end (run {| max_rows := 1000000; recover_flush := false |} w_ragged init) = Died [PIndexRange].
+Proof. vm_compute. reflexivity. Qed.
+
+(* input classes (Model.batch_class) of the sequences above: the guard of the row-conservation
+   theorem only excludes 8 (columns of different lengths) *)
 Lemma witness_classes :
   map (fun evs => fold_left (fun a e => N.lor a (event_class (front_ev prod_cfg e))) evs 0%N)
-      [w_empty_name; w_underscore; w_collision; w_row_time; w_guarded] = [1; 2; 4; 8; 0]%N.
+      [w_underscore; w_collision; w_suffix_collision; w_guarded] = [2; 4; 8; 2]%N.
 Proof. vm_compute. reflexivity. Qed.
